@@ -93,6 +93,10 @@ def run(tier, seed):
                 want_win = [f(i) for i in by[(k, n)]]
                 mean, var, std = _stats([f0(i) for i in by[(k, n)]])
                 gm, gv, gs, gg, gwin, rs = obs[n - 1]
+                if any(not isinstance(v_, (int, float)) for v_ in (gm, gv, gs, gg)):
+                    ctx.violation("replay.sw.stats", key, "after %d updates: mean/var/std/get = %r are not all numbers" % (n, (gm, gv, gs, gg)),
+                                  {"k": k, "values": vals[:n]})
+                    break
                 gm, gv, gs, gg = gm / unit, gv / unit / unit, gs / unit, gg / unit
                 sc = max(abs(f0(i)) for i in by[(k, n)]) ** 2
                 nrep += 1
